@@ -11,7 +11,8 @@
    Peek(n)                              [peek_bytes]  (fails when n > 4096 = bufio's buffer, or short)
    every for loop                       recursion on fuel, [OutOfFuel] when it runs out
    delimiter[len(delimiter)-1]          [Crash] on an empty delimiter
-   l.buffer / l.stack / l.file / Offset not modelled (error rendering only); l.customs is empty
+   l.buffer / l.stack / l.file          not modelled (error rendering only); l.customs is empty
+   Token.Offset                         [toff]
    token literals                       rune lists (WriteRune / string(rune) re-encode, see Utf8.enc_all) *)
 From Coq Require Import List NArith Bool.
 From Coq Require Strings.String Strings.Ascii.
@@ -50,7 +51,10 @@ Fixpoint bytes_eqb (a b : list byte) : bool :=
   | _, _ => false
   end.
 
-Record token := mkTok { ttype : str; tlit : str; tline : N; tpos : N }.
+(* Token.Offset ("for print problem") is 0 except on STRING tokens: 2 for a double-quoted string,
+   2 + 2 * len(delimiter + quote) for the body of a long string; the parser tests Offset == 2. *)
+Record token := mkTokO { ttype : str; tlit : str; tline : N; tpos : N; toff : N }.
+Notation mkTok ty l ln i := (mkTokO ty l ln i 0).
 
 Record lexer := mkLx {
   ch : rune; rest : list byte; line : N; idx : N;
@@ -283,7 +287,7 @@ Definition lex_brace (n : nat) (st : lexer) (ln i : N) : res (token * lexer) :=
         let sl := line st1 in
         let si := idx st1 in
         do (body, st2) <- read_bracket_string delim n st1;
-        let stt := mkTok T_STRING body sl si in
+        let stt := mkTokO T_STRING body sl si (2 + 2 * N.of_nat (length d)) in
         let ct := mkTok T_CLOSE_LONG_STRING dl (line st2) (idx st2) in
         finish (mkTok T_OPEN_LONG_STRING dl ln i) (push_tokens st2 [stt; ct])
     end
@@ -385,7 +389,7 @@ Definition lex_char (n : nat) (st : lexer) : res (token * lexer) :=
   else if c =? 91 then single st ln i T_LEFT_BRACKET
   else if c =? 93 then single st ln i T_RIGHT_BRACKET
   else if c =? 34 then
-    do (l, st1) <- read_string n st; finish (mkTok T_STRING l ln i) st1
+    do (l, st1) <- read_string n st; finish (mkTokO T_STRING l ln i 2) st1
   else if c =? 59 then single st ln i T_SEMICOLON
   else if c =? 46 then single st ln i T_DOT
   else if c =? 44 then single st ln i T_COMMA
